@@ -30,6 +30,7 @@ ASSUMPTIONS = [
     "TensorFlow backend is absent from the sandbox and not executed",
 ]
 REQUIRED_MONITORS = ["shadow:gaussian", "shadow:bosonic", "shadow:fock-pure", "shadow:fock-mixed",
+                     "shadow:fock-pure(state still in ket representation)",
                      "final:source-shadow", "pure-vs-mixed", "pair-sweep"]
 MAX_SKIP_FRACTION = 0.35
 
@@ -122,6 +123,9 @@ class ShadowObserver:
                 rep.observe("fock.discarded-truncation-dominated")
                 return
             rep.monitor("shadow:" + lab)
+            if after.pure:
+                rep.monitor("shadow:fock-pure(state still in ket representation)")
+                rep.seen("ket-representation:op-modes", "%s%s" % (ev["name"], tuple(ev["modes"])))
             budget = self.simrun.fock_budget(self.tau_star)
             mu, V = after.fock_moments()
             dm = np.max(np.abs(mu - self.g.mu))
@@ -253,9 +257,22 @@ def gen_case(rng, simrun, fock):
     n = int(rng.integers(1, 4))
     if fock:
         allow = simrun.FOCK_OK & simrun.GAUSSIAN_OK
-        spec = simrun.gen_program(rng, gen, n=n, small=True, allow=allow, length=int(rng.integers(2, 7)))
-        for c in spec["cmds"]:  # keep energies small for the Fock leg
-            pass
+        keep_pure = rng.random() < 0.6
+        if keep_pure:
+            # gates only, from vacuum: the pure representation of the Fock backend stays pure, so its own
+            # code paths (apply_twomode_gate / apply_gate_BLAS pure branches) are the ones compared
+            allow = allow - set(simrun.PREPS) - {"LossChannel", "Gaussian"}
+        spec = simrun.gen_program(rng, gen, n=n, small=True, allow=allow, length=int(rng.integers(2, 7)),
+                                  prefix=not keep_pure)
+        if keep_pure:
+            pre = []
+            for m in range(n):
+                pre.append({"op": "Dgate", "p": [float(rng.uniform(0.05, 0.3)), float(rng.uniform(0, 6.28))], "m": [m], "dag": False})
+                pre.append({"op": "Sgate", "p": [float(rng.uniform(-0.2, 0.2)), float(rng.uniform(0, 6.28))], "m": [m], "dag": False})
+            for _ in range(n - 1):
+                a, b = (int(x) for x in rng.choice(n, 2, replace=False))
+                pre.append({"op": "BSgate", "p": [float(rng.uniform(0.3, 1.2)), float(rng.uniform(0, 6.28))], "m": [a, b], "dag": False})
+            spec["cmds"] = pre + spec["cmds"]
         return {"spec": spec, "hbar": float(rng.choice([2.0, 1.0, 0.5])), "fock": True,
                 "cutoff": 10 if n <= 2 else 8}
     allow = simrun.GAUSSIAN_OK if rng.random() < 0.5 else simrun.BOSONIC_OK
@@ -271,9 +288,10 @@ def pair_sweep_cases(rng, simrun):
                 if a == b:
                     continue
                 for dag in (False, True):
-                    cmds = [{"op": "Squeezed", "p": [0.2, 0.4], "m": [0], "dag": False},
-                            {"op": "Coherent", "p": [0.25, 1.1], "m": [1], "dag": False},
-                            {"op": "DisplacedSqueezed", "p": [0.15, 0.3, -0.15, 2.0], "m": [2], "dag": False},
+                    cmds = [{"op": "Sgate", "p": [0.2, 0.4], "m": [0], "dag": False},
+                            {"op": "Dgate", "p": [0.25, 1.1], "m": [1], "dag": False},
+                            {"op": "Dgate", "p": [0.15, 0.3], "m": [2], "dag": False},
+                            {"op": "Sgate", "p": [-0.15, 2.0], "m": [2], "dag": False},
                             {"op": "BSgate", "p": [0.6, 0.3], "m": [0, 1], "dag": False},
                             {"op": "BSgate", "p": [0.9, 1.3], "m": [1, 2], "dag": False},
                             {"op": nm, "p": simrun.gen_params(rng, nm, True, gen), "m": [a, b], "dag": dag}]
